@@ -527,6 +527,19 @@ def run(ctx):
             {"name": "e2", "type": ["null", "a.E"]}]},
         "X": {"type": "fixed", "name": "X", "size": 3},
         "a.E": {"type": "enum", "name": "E", "namespace": "a", "symbols": ["A", "B"]}}))
+    # a per-file type used twice inside ONE union: nested in an earlier complex branch, then directly as a later branch
+    for ns in ("", "u.v"):
+        q = (lambda n_: ns + "." + n_) if ns else (lambda n_: n_)
+        for tkind in ("record", "enum", "fixed"):
+            tdef = {"type": tkind, "name": q("T")}
+            tdef.update({"record": {"fields": [{"name": "x", "type": "int"}]}, "enum": {"symbols": ["A", "B"]}, "fixed": {"size": 3}}[tkind])
+            for early in ({"type": "map", "values": q("T")}, {"type": "array", "items": "T"},
+                          {"type": "record", "name": q("W"), "fields": [{"name": "f", "type": "T"}]},
+                          {"type": "array", "items": {"type": "map", "values": ["null", q("T")]}}):
+                for union in ([early, q("T")], ["null", early, "T"], [early, "string", q("T")]):
+                    top = {"type": "record", "name": q("Top"), "fields": [{"name": "u", "type": copy.deepcopy(union)},
+                                                                        {"name": "after", "type": ["null", "T"]}]}
+                    graphs.append(dict(top=q("Top"), n=2, deps={q("Top"): [q("T")], q("T"): []}, files={q("Top"): top, q("T"): copy.deepcopy(tdef)}))
     # the same simple name in the null namespace and in a namespace; a type of that namespace refers to its sibling by the
     # relative spelling AFTER the null-namespace one has been loaded (document order): it must bind to the sibling
     for kind_null, kind_ns in [("enum", "enum"), ("fixed", "enum"), ("record", "record"), ("enum", "record")]:
